@@ -299,7 +299,10 @@ class ForceForms(Suite):
     FORMS = ('name', 'list', 'tuple', 'iterator', 'generator', 'dict_keys')
 
     def gen(self, rng, tier):
-        return [dict(form=f, n=n, pick=p) for f in self.FORMS for n in (2, 3) for p in ('src', 'mid')]
+        # a Task object names a task too; `src` is one object in all member chains (a Task object that is in one chain only
+        # makes the other chains raise - the graph library does not know it -, see DESIGN 12.4)
+        return [dict(form=f, n=n, pick=p) for f in self.FORMS for n in (2, 3) for p in ('src', 'mid')] + \
+               [dict(form=f, n=n, pick='src') for f in ('task', 'task_list', 'task_and_name') for n in (2, 3)]
 
     def run_impl(self, case):
         from taskchain import Config, MultiChain
@@ -313,15 +316,17 @@ class ForceForms(Suite):
                 for t in ch.tasks.values():
                     _ = t.value
             names = [case['pick']]
+            first = next(iter(mc.chains.values()))
             arg = {'name': names[0], 'list': names, 'tuple': tuple(names), 'iterator': iter(names),
-                   'generator': (n for n in names), 'dict_keys': dict.fromkeys(names).keys()}[case['form']]
+                   'generator': (n for n in names), 'dict_keys': dict.fromkeys(names).keys(),
+                   'task': first[names[0]], 'task_list': [first[names[0]]], 'task_and_name': [first[names[0]], 'side']}[case['form']]
             mc.force(arg)
             return {n: {t: bool(ch.tasks[t]._forced) for t in ch.tasks} for n, ch in mc.chains.items()}
 
     def oracle(self, case, obs):
         if 'unexpected_exception' in obs:
             return f'unexpected exception {obs["unexpected_exception"]}: {obs["text"]}'
-        down = {'src': {'src', 'mid', 'top'}, 'mid': {'mid', 'top'}}[case['pick']]
+        down = {'src': {'src', 'mid', 'top'}, 'mid': {'mid', 'top'}}[case['pick']] | ({'side'} if case['form'] == 'task_and_name' else set())
         for n, flags in obs.items():
             got = {t for t, f in flags.items() if f}
             if got != down:
